@@ -3,7 +3,10 @@ From Bfe Require Import lib.Val model.HashSet.
 Import ListNotations.
 Open Scope Z_scope.
 
-(* input : [cap ksz fixed hashkind [op ...]]   op = [1 xKey h] Add | [2 xKey h] Remove | [3 xKey h] Exist | [4] Len
+(* TWO MODES.  Pool mode (hashkind = -1): [elemNum size fixed -1 [pop ...]]  pop = [1 idx xKey] Set | [2 idx] Get |
+            [3] MaxElemSize, on byte_pool.NewBytePool / NewFixedBytePool directly; output [obs ...].
+   Set mode:
+   input : [cap ksz fixed hashkind [op ...]]   op = [1 xKey h] Add | [2 xKey h] Remove | [3 xKey h] Exist | [4] Len
             (h = hashFunc(key) as computed by the harness with the hash function named by hashkind)
    output: [-1 1] if NewHashSet fails (cap <= 0 or ksz <= 0), else
            [ [obs ...] [ [ha...] [next...] freeNode length [xSlot ...] ] ]   -- final internal arrays *)
@@ -29,21 +32,54 @@ Definition cfg_ok (c : cfg) : bool := (0 <? cap c) && (0 <? ksz c).
 
 Definition dump (s : st) : val := VL [vLZ (ha s); vLZ (nxt s); VZ (free s); VZ (len s); vLB (slots s)].
 
-Definition run_C20 (v : val) : val :=
+Definition dec_pop (v : val) : option pop :=
+  match v with
+  | VL [VZ 1; VZ idx; VB k] => if 0 <=? idx then Some (PSet idx k) else None
+  | VL [VZ 2; VZ idx] => if 0 <=? idx then Some (PGet idx) else None
+  | VL [VZ 3] => Some PMax
+  | _ => None
+  end.
+Definition is_pool (v : val) : bool :=
+  match v with VL [_; _; _; VZ hk; _] => hk =? -1 | _ => false end.
+Definition dec_pool (v : val) : option (cfg * list pop) :=
+  match v with
+  | VL [VZ n; VZ sz; VZ fx; VZ _; VL ops] =>
+    match all_some (map dec_pop ops) with
+    | Some o => Some ({| cap := n; ksz := sz; fixed := negb (fx =? 0) |}, o)
+    | None => None
+    end
+  | _ => None
+  end.
+
+(* the hash column is a function of the key: executable well-formedness of a set-mode history *)
+Definition op_kh (o : op) : list (key * Z) :=
+  match o with OAdd k h | ORemove k h | OExist k h => [(k, h)] | OLen => [] end.
+Definition kh (ops : list op) : list (key * Z) := flat_map op_kh ops.
+Definition functional_b (l : list (key * Z)) : bool :=
+  forallb (fun p => forallb (fun q => negb (key_eqb (fst p) (fst q)) || (snd p =? snd q)) l) l.
+
+Definition run_set (v : val) : val :=
   match dec_input v with
   | None => VErr 0
   | Some (c, ops) =>
     if cfg_ok c then let '(s, obs) := run_ops c (init c) ops in VL [vLZ obs; dump s] else VErr 1
   end.
+Definition run_pool (v : val) : val :=
+  match dec_pool v with
+  | None => VErr 0
+  | Some (c, ops) => if cfg_ok c then VL (pool_run c (pool_init c) ops) else VErr 1
+  end.
+Definition run_C20 (v : val) : val := if is_pool v then run_pool v else run_set v.
 
 (* exact agreement with the array model (observations and final arrays), and the array model's run is
    certified step by step against the bucket-list model (representation invariant + abstraction) *)
 Definition agree_C20 (v o : val) : bool :=
   val_eqb (run_C20 v) o &&
-  match dec_input v with
-  | Some (c, ops) => if cfg_ok c then sim_check c (init c) bl_init ops else true
-  | None => true
-  end.
+  (is_pool v ||
+   match dec_input v with
+   | Some (c, ops) => if cfg_ok c then sim_check c (init c) bl_init ops else true
+   | None => true
+   end).
 
 (* THE PROPERTY, on the implementation's observations: they are those of a bounded mathematical set.
    Tolerated: adding a key that is already a member to a full set may answer "ok" or "full". *)
@@ -59,7 +95,7 @@ Fixpoint sp_check (c : cfg) (s : list key) (ops : list op) (obs : list Z) : bool
      end) && sp_check c s1 r ys
   | _, _ => false
   end.
-Definition prop_C20 (v o : val) : bool :=
+Definition prop_set (v o : val) : bool :=
   match dec_input v with
   | Some (c, ops) =>
     if cfg_ok c then
@@ -70,4 +106,17 @@ Definition prop_C20 (v o : val) : bool :=
     else val_eqb o (VErr 1)
   | None => false
   end.
+(* pool mode: every Get returns the key of the last accepted Set on that index (initially empty / zeros), Set
+   refuses an index >= elemNum and a key of the wrong length *)
+Definition prop_pool (v o : val) : bool :=
+  match dec_pool v with
+  | Some (c, ops) => if cfg_ok c then val_eqb o (VL (psp_run c [] ops)) else val_eqb o (VErr 1)
+  | None => false
+  end.
+Definition prop_C20 (v o : val) : bool := if is_pool v then prop_pool v o else prop_set v o.
 Definition kf_C20 (v : val) : Z := 0.
+
+(* executable well-formedness of a wire input *)
+Definition wf_C20 (v : val) : bool :=
+  if is_pool v then match dec_pool v with Some _ => true | None => false end
+  else match dec_input v with Some (c, ops) => functional_b (kh ops) | None => false end.
